@@ -3,6 +3,12 @@ from __future__ import annotations
 
 import itertools
 
+#: default policies ("centres" of the deviation-bounded search): FIFO, LIFO, job processes first, and priority orders
+#: over actor kinds (e.g. observers last = notifications arrive late; jobs last = processes are slow; threads last =
+#: helper threads complete late; loop last = the scheduler loop is slow)
+POL_WIDE = ("FIFO", "LIFO", "JOBS", "P:loop,thread,job,main,observer", "P:loop,main,job,observer,thread",
+            "P:thread,job,observer,main,loop", "P:main,loop,thread,observer,job", "P:observer,thread,loop,job,main")
+
 JOB_KINDS = ["up", "ups", "upd", "holder", "holder2", "mt", "pre", "init", "explicit"]
 OUT_KINDS = ["oin", "holder-o", "pre-o", "explicit"]
 SLOT = {"up": "up", "holder": "h", "holder2": "h", "mt": "h", "holder-o": "h", "oin": "oin"}   # single-valued parameters
@@ -182,6 +188,20 @@ def kill_scenarios():
     return out
 
 
+def kill_fail_scenarios():
+    """Killed while a job that is going to FAIL runs: the restarted experiment takes the process back (no exit status
+    is available for somebody else's process) and must still contain the failure."""
+    out = []
+
+    def mk(name, body):
+        ops = [XP("xp", body)]
+        import copy
+        return sc(f"killfail:{name}", f"killfail:{name}", [ops], restart=copy.deepcopy(ops), fine=True, kill=True)
+    out.append(mk("chain", [J("a", 1, code=1), J("b", 2, [("a", "up")]), J("c", 3)]))
+    out.append(mk("fork+token", [TOK("t", 1), J("a", 1, code=2, tok=[("t", 1)]), J("b", 2, [("a", "holder")]), J("c", 3, tok=[("t", 1)])]))
+    return out
+
+
 def index_scenarios(nruns=3, jobs=(1, 2), endings=("ok", "raise"), wait_before_raise=(True,)):
     """All histories of `nruns` runs of one experiment name, each submitting a subset of the jobs and ending normally
     or by an exception in the block; the index is examined (and the real `orphans` command run) after every run."""
@@ -219,3 +239,16 @@ def index_kill_scenarios():
 
 def index_twoproc_scenarios():
     return [sc("idx:2proc-same-experiment", "index:2proc", [[XP("x", [J("a", 1)])], [XP("x", [J("b", 2)])]], fine=True)]
+
+
+def special_dep_scenarios(failing=False):
+    """Dependencies that reach a job through a pre-task attached to a task-output configuration it takes as parameter."""
+    out = []
+    for order in (("a", "b"), ("b", "a")):
+        for fb in ((0, 1) if failing else (0,)):
+            jobs = {"a": J("a", 1, cls="jobout"), "b": J("b", 2, code=fb)}
+            body = [jobs[o] for o in order] + [J("c", 3, [("a", "oin"), ("b", "pre-on-oin")])]
+            out.append(sc(f"special:pre-on-output:{''.join(order)}:f{fb}", "special:pre-on-output" + (":fail" if fb else ""), [[XP("xp", body)]]))
+    jobs = [J("a", 1, cls="jobout"), J("b", 2, cls="jobout"), J("c", 3, [("a", "oin"), ("b", "pre-o-on-oin")])]
+    out.append(sc("special:pre-output-on-output", "special:pre-on-output", [[XP("xp", jobs)]]))
+    return out
